@@ -650,6 +650,21 @@ func (e *Env) call(x *CE, pos bool) CV {
 		}
 		k = e.coerce(k, g.mapKeySort(mt))
 		return g.cv("(select "+g.readHeap(e.st, g.mapHasHeap(mt), m.S)+" "+k.S+")", "Bool", nil)
+	case "local":
+		// local(x): the function's local variable x at this point (postconditions that pin down an
+		// intermediate result; such a clause is checked but never exported to callers)
+		if e.frame == nil || len(args) != 1 || args[0].Op != "ident" {
+			fail("local(x) is only available in the postconditions of the function under verification")
+		}
+		c, ok := e.frame.cells[args[0].Name]
+		if !ok {
+			fail("local(%s): no such local variable", args[0].Name)
+		}
+		v, live := e.st.cells[c]
+		if !live {
+			fail("local(%s) is not live at this return", args[0].Name)
+		}
+		return CV{v, c.Type().Underlying().(*types.Pointer).Elem()}
 	case "isbool":
 		return g.cv("((_ is ABool) "+argv(0).S+")", "Bool", nil)
 	case "pair":
